@@ -46,7 +46,7 @@ def true_bin(edges, v):
     return bisect.bisect_right(edges, v) - 1
 
 
-def admissible(edges, v, right_continuous, step=None, eps=EPS64):
+def admissible(edges, v, right_continuous, step=None, eps=EPS64, single_open=True):
     """Set of admissible answers of a lower-inclusive / upper-exclusive binning of v.
 
     edges: list of python floats (increasing).  step: exact width (Fraction) of the last bin for the closed mode.
@@ -54,7 +54,7 @@ def admissible(edges, v, right_continuous, step=None, eps=EPS64):
     not go below it.
     """
     n = len(edges)
-    if n == 1:
+    if n == 1 and single_open:
         right_continuous = True  # pinned by tests.test_calc: single-edge grids are open-ended
     k = true_bin(edges, v)
     allowed = {k}
@@ -64,7 +64,7 @@ def admissible(edges, v, right_continuous, step=None, eps=EPS64):
         return allowed
     # closed mode: the last bin ends at edges[-1] + step
     if step is None:
-        step = Fraction(edges[1]) - Fraction(edges[0])
+        step = Fraction(edges[1]) - Fraction(edges[0]) if n > 1 else Fraction(1)
     upper = Fraction(edges[-1]) + step
     s = Fraction(2 * slack(v, n, edges, eps))
     fv = Fraction(v)
